@@ -491,6 +491,10 @@ def generate(rng, tier, profile='faultfree'):
 # --------------------------------------------------------------------------
 # environment: the caller's inputs
 # --------------------------------------------------------------------------
+class _NoReference(Exception):
+  """No reference object could be built from the pristine inputs."""
+
+
 class Env:
   """Builds the caller's frame / table / parameters from the description."""
 
@@ -538,8 +542,10 @@ class Env:
       self._par_kwargs[k] = tuple(v) if isinstance(v, list) else v
 
   def set_parameters(self, fields):
-    self._par_overrides = {k: v for k, v in fields.items()
-                           if self._par_kwargs.get(k, _UNSET) != v}
+    self._par_overrides = {
+        k: v for k, v in fields.items()
+        if k not in self._par_kwargs or
+        _par_state({k: self._par_kwargs[k]}) != _par_state({k: v})}
     self._ref_mods = None
 
   def frame(self):
@@ -591,7 +597,10 @@ class Env:
     only produce a (deterministic, replayable) disagreement -- on code that
     has the defect.
     """
-    return self.build(self.reference_set())
+    try:
+      return self.build(self.reference_set())
+    except Exception as e:  # pylint: disable=broad-except
+      raise _NoReference(e)
 
   def reference_set(self):
     if self._ref_mods is None:
@@ -631,6 +640,40 @@ class Env:
 # --------------------------------------------------------------------------
 # the calls
 # --------------------------------------------------------------------------
+def _canon_answer(val):
+  """canon() of an answer of the object under test; an answer that cannot
+  even be canonicalised (a design whose geo groups are None, say) is still an
+  answer -- and differs from whatever the reference gives."""
+  try:
+    return core.canon(val)
+  except Exception as e:  # pylint: disable=broad-except
+    return ['uncanonisable', type(val).__name__, type(e).__name__]
+
+
+def _par_raw(par):
+  """The caller's parameter object as a shallow dict of its fields."""
+  try:
+    return {f.name: getattr(par, f.name, None)
+            for f in dataclasses.fields(par)}
+  except Exception:  # pylint: disable=broad-except
+    return dict(getattr(par, '__dict__', {}))
+
+
+def _par_state(fields):
+  """Comparable form of a field dict, whatever a library bug left in it (an
+  array, a generator, ...): equality of parameter objects must never raise."""
+  out = []
+  for k in sorted(fields):
+    try:
+      v = fields[k]
+      c = ['unset'] if v is _UNSET else core.canon(v)
+      json.dumps(c)
+    except Exception as e:  # pylint: disable=broad-except
+      c = ['uncanonisable', type(fields[k]).__name__, type(e).__name__]
+    out.append([k, c])
+  return out
+
+
 def _call(mm, op, res):
   """Performs the atomic call `op` on `mm`; returns the raw answer."""
   kind = op['op']
@@ -705,9 +748,10 @@ def _close(gen):
 
 def _outcome(fn):
   try:
-    return core.canon(fn())
+    v = fn()
   except Exception as e:  # pylint: disable=broad-except
     return core.canon(e)
+  return _canon_answer(v)
 
 
 REJECTS = {
@@ -839,7 +883,8 @@ def execute(desc):
     fault('data_object_used_before')
   df0 = env.frame()
   elig0 = env.elig_frame()
-  par_base = dataclasses.asdict(env.parameters())
+  par_base = _par_raw(env.parameters())
+  par_base_c = _par_state(par_base)
   if focus == 'C10':
     # the caller-owned inputs right after the object was built from them
     what = None
@@ -847,7 +892,7 @@ def execute(desc):
       what = 'input frame'
     elif not env.frame_intact(elig_in, elig0):
       what = 'eligibility table'
-    elif dataclasses.asdict(par) != par_base:
+    elif _par_state(_par_raw(par)) != par_base_c:
       what = 'parameter object'
     if what:
       v = core.violation(prop, 'I2', -1, 'construct',
@@ -858,7 +903,14 @@ def execute(desc):
   def geometry(mm_f):
     ga = mm_f.geo_assignments
     return [len(ga.all), sorted(ga.t)]
-  geo = ref_answer('geometry', geometry)
+  try:
+    geo = ref_answer('geometry', geometry)
+  except _NoReference as e:
+    # the object under test could be built from these inputs, a second object
+    # from identical inputs could not: nothing to compare this run with
+    stats['skipped']['reference_not_buildable_' +
+                     type(e.args[0]).__name__] = 1
+    return finish(None, [], ['no-reference'], False)
   if isinstance(geo, list) and len(geo) == 2 and isinstance(geo[0], int):
     n_idx, t_sorted = geo[0], list(geo[1])
   else:
@@ -897,12 +949,16 @@ def execute(desc):
   # ---- C14: record the pushes of every bounded queue -----------------------
   heapdict_mod = env.mods[4]
   pushes = []
-  orig_push = heapdict_mod.HeapDict.push
-  if focus == 'C14':
-    def recording_push(self, key, item):
-      pushes.append((key, item))
-      return orig_push(self, key, item)
+  orig_push = getattr(getattr(heapdict_mod, 'HeapDict', None), 'push', None)
+  if focus == 'C14' and orig_push is not None:
+    def recording_push(self, *args, **kwargs):
+      if len(args) >= 2:
+        pushes.append((args[0], args[1]))
+      return orig_push(self, *args, **kwargs)
     heapdict_mod.HeapDict.push = recording_push
+  elif focus == 'C14':
+    # no HeapDict.push to record: the searches are judged by S0-S2 only
+    stats['skipped']['no_HeapDict_push'] = 1
 
   events = []
   absig = [('cfg', desc.get('elig') is not None,
@@ -929,7 +985,10 @@ def execute(desc):
 
   def check_search_list(step, kind, raw, pushed):
     """C14 S1-S3 on a list returned by a search or a retrieval."""
-    n_designs = int(par_base['n_designs'])
+    try:
+      n_designs = int(par_base['n_designs'])
+    except Exception:  # pylint: disable=broad-except
+      return None          # no readable cap: nothing to hold the list against
     if isinstance(raw, tuple):
       raw = list(raw)
     if not isinstance(raw, list):
@@ -1004,16 +1063,20 @@ def execute(desc):
       elif kind == 'mutate_snapshot':
         if last_list is not None:
           how = op['how']
-          if how == 'clear':
-            del last_list[:]
-          elif how == 'pop' and last_list:
-            last_list.pop()
-          elif how == 'reverse':
-            last_list.reverse()
-          elif how == 'append_none':
-            last_list.append(None)
-          fault('mutate_snapshot')
-          state_change = True
+          try:
+            if how == 'clear':
+              del last_list[:]
+            elif how == 'pop' and last_list:
+              last_list.pop()
+            elif how == 'reverse':
+              last_list.reverse()
+            elif how == 'append_none':
+              last_list.append(None)
+            fault('mutate_snapshot')
+            state_change = True
+          except Exception:  # pylint: disable=broad-except
+            # a read-only list: the caller cannot disturb anything through it
+            probe('returned_container_not_mutable')
       elif kind == 'mutate_designs':
         # the caller scribbles into the numpy arrays INSIDE the design objects
         # it was handed (series, residuals, Brownian-bridge bounds).  The API
@@ -1022,7 +1085,10 @@ def execute(desc):
         # until the next completed search) -- but no OTHER answer may change.
         n_written = 0
         for d in (last_list or []):
-          n_written += _scribble_design(d, np)
+          try:
+            n_written += _scribble_design(d, np)
+          except Exception:  # pylint: disable=broad-except
+            probe('returned_container_not_mutable')
         if n_written:
           fault('mutate_designs')
           results_trusted = False
@@ -1030,9 +1096,12 @@ def execute(desc):
       elif kind == 'mutate_returned':
         # the caller treats what a query or listing handed it as its own
         if last_answer is not None:
-          _vandalise(last_answer, op['how'])
-          fault('mutate_returned')
-          state_change = True
+          try:
+            _vandalise(last_answer, op['how'])
+            fault('mutate_returned')
+            state_change = True
+          except Exception:  # pylint: disable=broad-except
+            probe('returned_container_not_mutable')
           last_answer = None
       elif kind == 'sibling':
         # an unrelated object (own data, own parameters) is used in the same
@@ -1059,7 +1128,10 @@ def execute(desc):
         lst = listings.pop(op['lid'], None)
         if lst is not None:
           if kind == 'close':
-            _close(lst['gen'])
+            try:
+              _close(lst['gen'])
+            except Exception:  # pylint: disable=broad-except
+              probe('close_raised')
           else:
             if lst['pos'] > 0:
               probe('listing_abandoned_midway')
@@ -1101,14 +1173,14 @@ def execute(desc):
               intr = None
               if okind == 'interrupted':
                 fault('interrupt_' + op['interrupt']['exc'])
-                probe('interrupt_in_%s' % val[2])
+                probe('interrupt_in_%s' % (val or ('?', 0, '?'))[2])
                 flags['interrupted'] = True
                 listings.pop(op['lid'], None)
-                ev.append(['interrupted', list(val)])
+                ev.append(['interrupted', list(val or ())])
                 state_change = True
                 break
               if okind == 'exc':
-                got = core.canon(val)
+                got = _canon_answer(val)
               else:
                 got = val
             else:
@@ -1178,13 +1250,13 @@ def execute(desc):
             okind = 'exc'
         if okind == 'interrupted':
           fault('interrupt_' + intr['exc'])
-          probe('interrupt_in_%s' % val[2])
+          probe('interrupt_in_%s' % (val or ('?', 0, '?'))[2])
           probe('interrupted_call_%s' % akind)
           flags['interrupted'] = True
           state_change = True
           if akind in ('exhaustive', 'greedy', 'results'):
             results_trusted = False
-          ev.append(['interrupted', list(val)])
+          ev.append(['interrupted', list(val or ())])
           # An injected interrupt can land anywhere -- also inside the very
           # `finally:` block that restores the caller's parameters (seen in a
           # thorough run: interrupt at 99.92 % of greedy_search's lines), and
@@ -1193,18 +1265,19 @@ def execute(desc):
           # holds it: counted, re-baselined, and the reference is built from
           # it from now on.  (Exceptions the library raises by itself never
           # originate in cleanup code and relax nothing.)
-          now = dataclasses.asdict(par)
-          if now != par_base and focus == 'C10':
+          now = _par_raw(par)
+          now_c = _par_state(now)
+          if now_c != par_base_c and focus == 'C10':
             probe('param_leak_after_interrupt')
             flags['par_touched'] = True
-            par_base = now
+            par_base, par_base_c = now, now_c
             env.set_parameters(now)
             for k in [k for k in memo if k != 'geometry']:
               del memo[k]
         else:
           if intr:
             probe('interrupt_missed')
-          got = core.canon(val)
+          got = _canon_answer(val)
           compare = True
           if akind == 'results' and not results_trusted:
             compare = False
@@ -1263,13 +1336,16 @@ def execute(desc):
         break
       # ---- invariants on caller-owned objects, after every step -----------
       if focus == 'C10':
-        now = dataclasses.asdict(par)
-        if now != par_base:
-          diff = sorted(k for k in now if now[k] != par_base.get(k))
+        now = _par_raw(par)
+        if _par_state(now) != par_base_c:
+          diff = sorted(k for k in set(now) | set(par_base)
+                        if _par_state({k: now.get(k, _UNSET)}) !=
+                        _par_state({k: par_base.get(k, _UNSET)}))
           viol = core.violation(
               prop, 'I3', step, label,
               'the caller\'s parameter object was modified: %s' % ', '.join(
-                  '%s %r -> %r' % (k, par_base.get(k), now[k]) for k in diff))
+                  '%s %.80r -> %.80r' % (k, par_base.get(k), now.get(k))
+                  for k in diff))
           break
         if not env.frame_intact(df_in, df0):
           viol = core.violation(prop, 'I2', step, label,
@@ -1287,8 +1363,12 @@ def execute(desc):
       stats['transitions'].add(core.digest_of([prev_state, label, st]))
       absig.append((label, st))
       prev_state = st
+  except _NoReference as e:
+    stats['skipped']['reference_not_buildable_' +
+                     type(e.args[0]).__name__] = 1
   finally:
-    heapdict_mod.HeapDict.push = orig_push
+    if orig_push is not None:
+      heapdict_mod.HeapDict.push = orig_push
     for lst in listings.values():
       try:
         _close(lst['gen'])
